@@ -1,15 +1,21 @@
-"""Copy a seeding agent's deliverables from /tmp/seed/<id>_out into /verif/seeded/<id>-<k>/."""
+"""Copy a seeding agent's deliverables into /verif/seeded/<id>-<k>/.
+
+usage: seedimport.py <id> [src_root=/tmp/seed] [offset=0]   (round 2: seedimport.py C01 /tmp/seed2 2 -> C01-3, C01-4)
+"""
 import json, os, shutil, sys
 pid = sys.argv[1]
-src = f"/tmp/seed/{pid}_out"
+root = sys.argv[2] if len(sys.argv) > 2 else "/tmp/seed"
+off = int(sys.argv[3]) if len(sys.argv) > 3 else 0
+src = f"{root}/{pid}_out"
 for k in (1, 2, 3):
     if not os.path.exists(f"{src}/change{k}.diff"):
         continue
-    dst = f"/verif/seeded/{pid}-{k}"
+    dst = f"/verif/seeded/{pid}-{k + off}"
     os.makedirs(dst, exist_ok=True)
     shutil.copy(f"{src}/change{k}.diff", f"{dst}/patch.diff")
     shutil.copy(f"{src}/demo{k}.py", f"{dst}/demo.py")
     meta = json.load(open(f"{src}/meta{k}.json"))
     meta["property"] = pid
+    meta["round"] = 1 if off == 0 else 2
     json.dump(meta, open(f"{dst}/meta.json", "w"), indent=1)
     print(dst, "-", str(meta.get("summary"))[:150])
